@@ -649,6 +649,23 @@ struct Gen {
     return e - 1;
   }
 
+  // two consecutive convenience calls of one function at m = 2^16 and 2^17 (either order): per-dimension state that is
+  // indexed by a truncated log2(m) aliases exactly there (all other dimensions of a run are far smaller)
+  int force_op = -1;
+  uint64_t force_m = 0;
+  bool emit_huge_pair() {
+    static const int ops[] = {OP_REIM_FFT, OP_CPLX_FFT, OP_REIM_IFFT, OP_CPLX_IFFT, OP_REIM_FROM_ZNX64, OP_CPLX_FROM_ZNX32, OP_REIM_TO_ZNX64};
+    force_op = ops[r.below(7)];
+    const bool up = r.chance(1, 2);
+    force_m = up ? (1ull << 16) : (1ull << 17);
+    bool ok = emit_table_op(true);
+    force_m = up ? (1ull << 17) : (1ull << 16);
+    ok = emit_table_op(true) && ok;
+    force_m = 0;
+    force_op = -1;
+    return ok;
+  }
+
   // emits one table-level call, or (simple==true) its *_simple twin
   bool emit_table_op(bool simple) {
     struct K {
@@ -678,6 +695,7 @@ struct Gen {
       static const int cached[] = {OP_REIM_TO_ZNX64, OP_CPLX_TO_TNX32, OP_REIM_FROM_ZNX64};  // twins whose tables depend on more than m
       op = cached[r.below(3)];
     }
+    if (force_op >= 0) op = force_op;
     const bool r4 = op >= OP_R4_MUL && op <= OP_R4_TO_CPLX;
     uint64_t m = pick_m(r4 ? 4 : 1);
     if (simple && cfg.simple_storm) m = 1ull << r.range(r4 ? 2 : 0, 11);  // a dozen dimensions in one process
@@ -688,6 +706,7 @@ struct Gen {
     // is shared between dimensions goes stale exactly there
     const bool aba = collide && prev_simple.count(lkey) && prev_simple[lkey].m != last_simple[lkey].m && r.chance(40, 100);
     if (collide) m = aba ? prev_simple[lkey].m : last_simple[lkey].m;
+    if (force_m) m = force_m;
     const LastParams cref = aba ? prev_simple[lkey] : (collide ? last_simple[lkey] : LastParams{0, 1, 0});
     Call c;
     double divisor = 1;
@@ -1194,6 +1213,7 @@ struct Gen {
 
   bool emit_any() {
     uint64_t x = r.below(100);
+    if (cfg.history_mode && cfg.simple_ops && r.chance(3, 10000)) return emit_huge_pair();
     if (cfg.edge_products && cfg.module_ops && !P.modules.empty() && r.chance(4, 100)) return emit_edge_product((int)r.below(P.modules.size()));
     int wm = cfg.module_ops ? 55 : 0, wt = cfg.table_ops ? 20 : 0, ws = cfg.simple_ops ? 20 : 0, wq = cfg.q120 ? 8 : 0, wl = cfg.life_ops ? 8 : 0,
         wr = cfg.repeats ? 30 : 0;
